@@ -7,7 +7,9 @@ import (
 	"math/rand"
 	"strings"
 	"sync"
+	"time"
 
+	"github.com/ulikunitz/xz"
 	"github.com/ulikunitz/xz/lzma"
 )
 
@@ -412,6 +414,212 @@ func lazy2Tie(r *Result, dp *DriverPool, rng *rand.Rand, nbase int) error {
 			}
 			if strings.TrimSpace(parts[1]) != hxe(delivered) {
 				r.Violate("broken-correspondence", "lazy2-reader delivered bytes", cs, fmt.Sprintf("go delivered %d bytes, the model %d", len(delivered), len(unhxe(strings.TrimSpace(parts[1])))))
+			}
+		}(cs)
+	}
+	wg.Wait()
+	return nil
+}
+
+// ---- the lazy xz reader (Model/LazyXz.lean) against xz.Reader ----
+
+type lazyXzCase struct {
+	Op      string `json:"op"`
+	Name    string `json:"name"`
+	Stream  string `json:"stream_hex"`
+	DictCap int    `json:"reader_dict_cap"`
+	Single  bool   `json:"single_stream"`
+	Sizes   []int  `json:"read_sizes"`
+}
+
+func lazyXzStatus(err error) string {
+	switch {
+	case err == nil:
+		return "ok"
+	case err == io.EOF:
+		return "EOF"
+	case err == io.ErrUnexpectedEOF:
+		return "UnexpectedEOF"
+	case err.Error() == lzma.ErrNoSpace.Error():
+		return "noSpace"
+	}
+	return "other"
+}
+
+func goLazyXz(cs lazyXzCase) (calls []string, delivered []byte, openSt string) {
+	defer func() {
+		if p := recover(); p != nil {
+			calls = append(calls, "0:panic")
+		}
+	}()
+	rd, err := xz.ReaderConfig{DictCap: cs.DictCap, SingleStream: cs.Single}.NewReader(bytes.NewReader(unhxe(cs.Stream)))
+	if err != nil {
+		return nil, nil, lazyXzStatus(err)
+	}
+	for _, sz := range cs.Sizes {
+		p := make([]byte, sz)
+		n, err := rd.Read(p)
+		delivered = append(delivered, p[:n]...)
+		calls = append(calls, fmt.Sprintf("%d:%s", n, lazyXzStatus(err)))
+		if err != nil {
+			break
+		}
+	}
+	return calls, delivered, ""
+}
+
+func lazyXzTie(r *Result, dp *DriverPool, rng *rand.Rand, nbase int) error {
+	var cases []lazyXzCase
+	mk := func(name string, stream []byte, content int, blockEnds []int) {
+		for v := 0; v < 3; v++ {
+			var sizes []int
+			budget := content + 600
+			switch {
+			case v == 0 && len(blockEnds) > 0:
+				// buffers that end exactly on block / stream boundaries of the content
+				prev := 0
+				for _, e := range blockEnds {
+					if e > prev {
+						sizes = append(sizes, e-prev)
+						prev = e
+					}
+				}
+			case v == 1:
+				sz := []int{1, 273, 1000, 4096, 100000}[rng.Intn(5)]
+				for budget > 0 {
+					sizes = append(sizes, sz)
+					budget -= sz
+				}
+				if len(sizes) > 3000 {
+					sizes = sizes[:3000]
+				}
+			default:
+				for budget > 0 && len(sizes) < 400 {
+					sz := []int{0, 1, 2, 273, 1000, 4096, rng.Intn(9000)}[rng.Intn(7)]
+					sizes = append(sizes, sz)
+					budget -= sz
+				}
+			}
+			sizes = append(sizes, 7, 7)
+			cases = append(cases, lazyXzCase{Op: "lazyxz-read", Name: name, Stream: hxe(stream), DictCap: []int{0, 4096, 1 << 16}[rng.Intn(3)], Single: rng.Intn(4) == 0, Sizes: sizes})
+		}
+	}
+	var prevStream []byte
+	var prevContent int
+	for i := 0; i < nbase; i++ {
+		var s []byte
+		var content int
+		var ends []int
+		name := ""
+		if i%2 == 0 {
+			c := pickXzCfg(rng, i)
+			c.Matcher = 0
+			if c.DictCap > 1<<20 {
+				c.DictCap = 1 << 20
+			}
+			if c.BlockSize > 0 && c.BlockSize < 50 {
+				c.BlockSize = 50 + int64(rng.Intn(3000))
+			}
+			_, d := pickData(rng, 12000)
+			w := goXzWrite(c, d, []int{len(d)}, 60*time.Second)
+			if w.firstErr() != "" {
+				continue
+			}
+			s, content, name = w.Out, len(d), "lib"
+			if c.BlockSize > 0 {
+				for e := int(c.BlockSize); e < len(d); e += int(c.BlockSize) {
+					ends = append(ends, e)
+				}
+			}
+			ends = append(ends, len(d))
+		} else {
+			st, ct, desc, err := genXzStream(rng, dp, 40)
+			if err != nil {
+				return err
+			}
+			s, content, name = st, len(ct), "spec/"+truncate(desc, 40)
+			ends = []int{len(ct)}
+		}
+		mk(name, s, content, ends)
+		switch i % 6 {
+		case 0:
+			mk("truncated/"+name, s[:rng.Intn(len(s)+1)], content, nil)
+		case 1:
+			m := append([]byte{}, s...)
+			m[rng.Intn(len(m))] ^= 1 << uint(rng.Intn(8))
+			mk("bitflip/"+name, m, content, nil)
+		case 2:
+			mk("appended/"+name, append(append([]byte{}, s...), genRandom(rng, 1+rng.Intn(8))...), content, nil)
+		case 3:
+			if prevStream != nil {
+				pad := make([]byte, []int{0, 4, 8, 3}[rng.Intn(4)])
+				chain := append(append(append([]byte{}, prevStream...), pad...), s...)
+				mk("chain/"+name, chain, prevContent+content, []int{prevContent, prevContent + content})
+			}
+		case 4:
+			mk("padded/"+name, append(append([]byte{}, s...), make([]byte, []int{4, 8, 2, 5}[rng.Intn(4)])...), content, ends)
+		}
+		prevStream, prevContent = s, content
+	}
+	var wg sync.WaitGroup
+	sem := make(chan struct{}, 16)
+	for _, cs := range cases {
+		wg.Add(1)
+		sem <- struct{}{}
+		go func(cs lazyXzCase) {
+			defer wg.Done()
+			defer func() { <-sem }()
+			goCalls, delivered, openSt := goLazyXz(cs)
+			q := fmt.Sprintf("xzlazy %d %d %s", cs.DictCap, b2i(cs.Single), cs.Stream)
+			for _, s := range cs.Sizes {
+				q += fmt.Sprint(" ", s)
+			}
+			rep, err := dp.Ask(q)
+			if err != nil {
+				r.Violate("broken-correspondence", "driver", cs, err.Error())
+				return
+			}
+			r.mu.Lock()
+			r.TracesVsImpl++
+			r.mu.Unlock()
+			r.Inc("lazyxz_reader_runs")
+			r.Inc("lazyxz_" + strings.SplitN(cs.Name, "/", 2)[0])
+			if strings.HasPrefix(rep, "open:") || openSt != "" {
+				if rep != "open:"+openSt {
+					r.Violate("broken-correspondence", "lazyxz-reader open", cs, fmt.Sprintf("NewReader: go %q, model %q", openSt, truncate(rep, 80)))
+				}
+				return
+			}
+			parts := strings.Split(rep, " | ")
+			if len(parts) < 2 {
+				r.Violate("broken-correspondence", "lazyxz-reader: bad driver reply", cs, truncate(rep, 200))
+				return
+			}
+			if len(goCalls) > 0 {
+				r.Inc("lazyxz_final_" + strings.SplitN(goCalls[len(goCalls)-1], ":", 2)[1])
+			}
+			mCalls := strings.Fields(parts[0])
+			for i := range goCalls {
+				if i >= len(mCalls) || mCalls[i] != goCalls[i] {
+					got := "<none>"
+					if i < len(mCalls) {
+						got = mCalls[i]
+					}
+					kind := "broken-correspondence"
+					if strings.HasSuffix(goCalls[i], ":panic") || strings.HasSuffix(goCalls[i], ":noSpace") {
+						kind = "counterexample"
+					}
+					r.Violate(kind, "lazyxz-reader call result "+strings.SplitN(cs.Name, "/", 2)[0], cs,
+						fmt.Sprintf("call %d (buffer %d): real xz.Reader returned n:status = %s, the lazy xz reader model (Model/LazyXz.lean) says %s", i, cs.Sizes[minInt(i, len(cs.Sizes)-1)], goCalls[i], got))
+					return
+				}
+			}
+			if len(mCalls) != len(goCalls) {
+				r.Violate("broken-correspondence", "lazyxz-reader call count", cs, fmt.Sprintf("go made %d calls before stopping, the model %d", len(goCalls), len(mCalls)))
+				return
+			}
+			if strings.TrimSpace(parts[1]) != hxe(delivered) {
+				r.Violate("broken-correspondence", "lazyxz-reader delivered bytes", cs, fmt.Sprintf("go delivered %d bytes, the model %d", len(delivered), len(unhxe(strings.TrimSpace(parts[1])))))
 			}
 		}(cs)
 	}
